@@ -108,6 +108,11 @@ impl<'a> ArrayView<'a> {
             data.len(),
             HEADER_SIZE
         );
+        ensure!(
+            DataType::try_from(data[4]).is_ok(),
+            "corrupted array: invalid element type byte {}",
+            data[4]
+        );
         Ok(Self { data })
     }
 
